@@ -1,9 +1,46 @@
-//! C13 sessions (seeded driver). Fill in.
+//! C13 / C14 sessions over random synthetic zones (0..3 transitions at least two days apart; jumps from minutes to a day,
+//! LMT-like second offsets), with wall readings and instants concentrated around the transitions.
 use super::Tracer;
 use crate::gen::*;
 use crate::rng::Rng;
-use serde_json::json;
+use serde_json::{json, Value};
+
+pub fn rand_zone(r: &mut Rng) -> (Value, Vec<i64>) {
+    let pick_off = |r: &mut Rng| -> i64 { match r.range(0, 5) { 0 => r.range(-14, 14) * 3600, 1 => r.range(-28, 28) * 1800, 2 => r.range(-50_000, 50_000), 3 => r.range(-13, 13) * 3600 + 900, _ => r.range(-12, 14) * 3600 } };
+    let mut off = pick_off(r); let init = off;
+    let n = r.range(0, 3); let mut at = r.range(-3, 1) * 86_400 + r.range(0, 86_399);
+    let mut trans = Vec::new(); let mut ats = Vec::new();
+    for _ in 0..n {
+        let new = match r.range(0, 4) { 0 => off + 3600, 1 => off - 3600, 2 => off + 1800, 3 => pick_off(r), _ => if off < 0 { off + 86_400 } else { off - 86_400 } };
+        let new = new.clamp(-86_399 + 3600, 86_399 - 3600);
+        if new == off { continue; }
+        trans.push(json!({"at": at, "off": new})); ats.push(at); off = new;
+        at += r.range(2, 9) * 86_400 + r.range(0, 86_399);
+    }
+    (json!({"init": init, "trans": trans}), ats)
+}
+fn near(r: &mut Rng, ats: &[i64], spread: i64) -> i64 {
+    if ats.is_empty() || r.chance(1, 4) { return r.range(-4 * 86_400, 30 * 86_400); }
+    *r.pick(ats) + match r.range(0, 3) { 0 => r.range(-3, 3), 1 => r.range(-spread, spread), _ => r.range(-100_000, 100_000) }
+}
+const DIS: [&str; 4] = ["compatible", "earlier", "later", "reject"];
+const OFFOPT: [&str; 4] = ["use", "ignore", "prefer", "reject"];
 
 pub fn drive(t: &mut Tracer, r: &mut Rng, n: usize) {
-    let _ = (t, r, n);
+    while t.n < n {
+        let (zone, ats) = rand_zone(r);
+        let offs: Vec<i64> = std::iter::once(zone["init"].as_i64().unwrap()).chain(zone["trans"].as_array().unwrap().iter().map(|x| x["off"].as_i64().unwrap())).collect();
+        for _ in 0..r.range(6, 20) {
+            match r.range(0, 5) {
+                0 | 1 => { // wall reading near a transition's local image
+                    let o = *r.pick(&offs); let w = near(r, &ats, 90_000) + o;
+                    t.call("Zoned.fromLocal", json!({"zone": zone, "w": w, "dis": *r.pick(&DIS)})); }
+                2 => { t.call("Zoned.wall", json!({"zone": zone, "t": near(r, &ats, 4000)})); }
+                _ => { let o = *r.pick(&offs); let w = near(r, &ats, 50_000) + o;
+                    let (k, off) = match r.range(0, 5) { 0 => ("none", 0), 1 => ("z", 0), 2 => ("offset", *r.pick(&offs)), 3 => { let x = *r.pick(&offs); ("offset", ((x.abs() + 30) / 60 * 60) * x.signum()) }, _ => ("offset", r.range(-14, 14) * 3600 + r.range(0, 59) * 60) };
+                    t.call("Zoned.fromStr", json!({"zone": zone, "w": w, "offk": k, "off": off, "dis": *r.pick(&DIS), "offopt": *r.pick(&OFFOPT)})); }
+            }
+        }
+        t.reset();
+    }
 }
